@@ -791,6 +791,7 @@ class Connection (EventMixin):
 
     self.disconnected = False
     self.disconnection_raised = False
+    self._disconnect_lock = threading.Lock()
     self.connect_time = None
     self.idle_time = time.time()
 
@@ -855,9 +856,13 @@ class Connection (EventMixin):
         self.ofnexus._disconnect(self.dpid)
     except:
       pass
-    if self.dpid is not None:
-      if not self.disconnection_raised and not defer_event:
+    if self.dpid is not None and not defer_event:
+      # The deferred sender's thread and the IO task may both get here for
+      # the same dead socket: only one of them announces it
+      with self._disconnect_lock:
+        announce = not self.disconnection_raised
         self.disconnection_raised = True
+      if announce:
         self.ofnexus.raiseEventNoErrors(ConnectionDown, self)
         self.raiseEventNoErrors(ConnectionDown, self)
 
